@@ -1,7 +1,7 @@
 (* C07 — property theorems only: pinned statement, `exact`, Print Assumptions. *)
 From Coq Require Import List NArith Bool.
 Import ListNotations.
-From L4 Require Import Common.FSModel Model.Window Model.Subst Proofs.Window.
+From L4 Require Import Common.FSModel Model.Window Model.Subst Proofs.Window Proofs.Subst.
 
 (* After any number n of rolls (contents f1..fn, each written to `file` and rolled),
    whatever the directory held initially (old archives, gaps, bystanders):
@@ -93,6 +93,21 @@ Theorem C07_panics_iff_top_index_overflows :
     roll name cm fault b c file f = Panicked <-> (c <> 0 /\ 4294967296 <= b + (c - 1))%N.
 Proof. exact roll_panics_iff. Qed.
 Print Assumptions C07_panics_iff_top_index_overflows.
+
+(* Archive names: for every pattern that contains "{}" (and no $ENV reference),
+   pattern.replace("{}", i.to_string()) is injective in i - so the `names_injective`
+   hypothesis above holds for every base and count, whatever the pattern. *)
+Theorem C07_archive_names_distinct :
+  forall (pat : list N) (i j : N),
+    contains_braces pat = true -> archive_name [] pat i = archive_name [] pat j -> i = j.
+Proof. exact archive_names_distinct. Qed.
+Print Assumptions C07_archive_names_distinct.
+
+Theorem C07_pattern_names_injective :
+  forall (pat : list N) (b c : N),
+    contains_braces pat = true -> names_injective (archive_name [] pat) b c.
+Proof. exact pattern_names_injective. Qed.
+Print Assumptions C07_pattern_names_injective.
 
 (* Non-vacuity: pattern "a.{}.log", base 1, count 3, an old archive at index 2, a gap
    at 1, a bystander; three rolls. *)
